@@ -47,6 +47,7 @@ class FakeSocket(object):
         self.reads_after_exhaustion = 0
         self.recv_errors = 0
         self.send_errors = 0
+        self.silent_timeouts = False
 
     # ---- server side API
     def _step(self):
@@ -61,8 +62,15 @@ class FakeSocket(object):
         i = self.recv_calls
         self.recv_calls += 1
         if self.recv_fault and i == self.recv_fault[0]:
-            self.recv_errors += 1
-            raise OSError(self.recv_fault[1], os.strerror(self.recv_fault[1]))
+            if self.recv_fault[1] == "T":
+                # the client stays silent and the async workers' keep-alive timer (a *silent* timeout around next(parser)) fires
+                # here; the other worker classes have no timer on a handler's read: nothing happens for them
+                if self.silent_timeouts:
+                    self.recv_errors += 1
+                    raise SilentTimeout()
+            else:
+                self.recv_errors += 1
+                raise OSError(self.recv_fault[1], os.strerror(self.recv_fault[1]))
         if not self.segments:
             self.reads_after_exhaustion += 1
             return b""
@@ -164,6 +172,10 @@ def make_cfg(**kw):
     return c
 
 
+class SilentTimeout(BaseException):
+    """stands for gevent.Timeout(keepalive, False) / eventlet.Timeout(keepalive, False) firing inside the guarded block"""
+
+
 class Env(object):
     """A worker of one class + its capturing logger."""
 
@@ -186,11 +198,25 @@ class Env(object):
         if kind == "gthread":
             import threading
             self.worker._lock = threading.RLock()
+        if kind in ("gevent", "eventlet"):
+            import contextlib
+            inner = self.worker.timeout_ctx
+
+            @contextlib.contextmanager
+            def timeout_ctx():
+                with inner():
+                    try:
+                        yield
+                    except SilentTimeout:
+                        pass            # a silent timeout ends the guarded block without an exception
+            self.worker.timeout_ctx = timeout_ctx
 
     def serve(self, sock):
         """Serve one connection like the worker's run loop would.
         Returns the exception (of any kind) that escaped handle(), or None."""
         w = self.worker
+        if hasattr(sock, "silent_timeouts"):
+            sock.silent_timeouts = self.kind in ("gevent", "eventlet")
         try:
             if self.kind == "gthread":
                 from gunicorn.workers.gthread import TConn
